@@ -510,6 +510,17 @@ class Engine(object):
             L += [z3.Implies(b > 0, app > 0), z3.Implies(p == 0, app == 1),
                   z3.Implies(p == 1, app == b)]
         d[key] = (args, app)
+        if name in ('ln', 'log10') and z3.is_app(a) and a.decl().kind() == z3.Z3_OP_DIV:
+            # ln(p/q) = -ln(q/p)  (true for p,q of equal sign, both sides undefined otherwise)
+            num, den = a.arg(0), a.arg(1)
+            rev = z3.simplify(den / num)
+            rkey = (name, (rev.get_id(),))
+            rapp = UF[name](rev)
+            L.append(z3.Implies(z3.And(num > 0, den > 0), app == -rapp))
+            if rkey not in d:
+                self.lemmas.extend(L)
+                L = []
+                self.note_app(name, [rev], rapp)
         if name in ('exp', 'exp10') and z3.is_app(a) and a.decl().name() in ('ln', 'log10'):
             inner = a.decl().name()
             if (name, inner) in (('exp', 'ln'), ('exp10', 'log10')):
